@@ -130,9 +130,91 @@ func genCaseCachedVotes(c *Ctx) {
 	c.Distinct(fmt.Sprintf("cachedvotes-%d-%d", c.Seed, c.nOps))
 }
 
+// genCaseSubmitVsConnect: a transaction is re-submitted in a tight loop while the block that
+// confirms it is being connected (peers re-broadcast; the pool removal and the chain-state
+// commit of one block connection must be atomic with respect to submissions).
+func genCaseSubmitVsConnect(c *Ctx) {
+	nc := newNodeCase(c, "pool", 2, 3, -1, 2)
+	defer nc.close()
+	n := nc.sut
+	tip := "b0"
+	for i := 0; i < 2+1+int(consensus.CoinbasePendingBlockNumber); i++ {
+		tip = nc.defBlock(tip, 0, 0, nil)
+		n.processBlock(nc.nm.blocks[tip])
+		nc.delivered[tip] = true
+	}
+	for round := 0; round < 10 && !concWedged; round++ {
+		var txs []*txInfo
+		for try := 0; try < 6 && len(txs) == 0; try++ {
+			txs = nc.randomTxs(tip)
+		}
+		if len(txs) == 0 {
+			break
+		}
+		blk := nc.defBlock(tip, 0, 0, txs)
+		if blk == "" {
+			break
+		}
+		for _, ti := range txs {
+			n.chain.ValidateTx(ti.tx)
+		}
+		var stop int32
+		done := make(chan struct{})
+		go func() {
+			for atomic.LoadInt32(&stop) == 0 {
+				for _, ti := range txs {
+					n.chain.ValidateTx(ti.tx)
+				}
+			}
+			close(done)
+		}()
+		ret := make(chan struct{})
+		go func() { n.chain.ProcessBlock(cloneBlock(nc.nm.blocks[blk])); close(ret) }()
+		select {
+		case <-ret:
+		case <-time.After(30 * time.Second):
+			c.Fail("C37:call-does-not-return", "ProcessBlock concurrent with re-submissions of its transactions did not return within 30 s")
+			concWedged = true
+		}
+		time.Sleep(2 * time.Millisecond)
+		atomic.StoreInt32(&stop, 1)
+		select {
+		case <-done:
+		case <-time.After(30 * time.Second):
+			c.Fail("C37:call-does-not-return", "ValidateTx concurrent with the connection of its block did not return within 30 s")
+			concWedged = true
+		}
+		if concWedged {
+			return
+		}
+		nc.delivered[blk] = true
+		tip = blk
+		n.quiesce()
+		d := n.pool.VerifDump()
+		for _, h := range d.Pool {
+			hh := h
+			tn := nc.txName(&hh)
+			for _, ti := range txs {
+				if ti.name == tn && n.chain.InMainChain(nc.nm.blocks[blk].Hash()) {
+					c.Fail("C37:atomicity:pooled-and-confirmed", fmt.Sprintf("%s was re-submitted while block %s (which confirms it) was being connected: node idle, the transaction is in the pool and in the main chain (C23 under concurrency)", tn, blk))
+				}
+			}
+		}
+		c.Count("submit-vs-connect-rounds")
+	}
+	nc.emit("conc submit-vs-connect", "ok")
+	c.Distinct(fmt.Sprintf("submitconnect-%d-%d", c.Seed, c.nOps))
+}
+
 func genCaseConc(c *Ctx, mode string) {
 	rng := c.Rng
-	switch rng.Intn(6) {
+	// the scenario is chosen by the case number, so that every window of 7 consecutive cases
+	// contains each directed scenario (2x flip-vs-block, cached votes, submit-vs-connect) and
+	// three general workloads
+	switch curCase % 7 {
+	case 6:
+		genCaseSubmitVsConnect(c)
+		return
 	case 0, 1:
 		genCaseFlipVsBlock(c)
 		return
@@ -295,9 +377,13 @@ func genCaseConc(c *Ctx, mode string) {
 		}
 	})
 	run(func() {
-		for _, ti := range txs {
-			t := ti
-			timed("ValidateTx "+t.name, func() { n.chain.ValidateTx(t.tx) })
+		// every transaction is submitted several times (peers re-broadcast): a submission can
+		// arrive while the block that confirms the transaction is being connected
+		for pass := 0; pass < 4; pass++ {
+			for _, ti := range txs {
+				t := ti
+				timed("ValidateTx "+t.name, func() { n.chain.ValidateTx(t.tx) })
+			}
 		}
 	})
 	var readerWG sync.WaitGroup
@@ -343,6 +429,22 @@ func genCaseConc(c *Ctx, mode string) {
 	// chain back to a stale tip and nothing repairs that until the next block arrives)
 	if bh, fc := n.chain.BestBlockHeader().Hash(), n.chain.VerifNodeCasper().BestChain(); bh != fc {
 		c.Fail("C37:stale-rollback", fmt.Sprintf("after the concurrent run (all calls returned, node idle): best block %s but the fork choice is %s", nc.nm.name(bh), nc.nm.name(fc)))
+	}
+	// ... and the pool holds no transaction of a main-chain block (a submission racing with the
+	// connection of its block must not leave it behind)
+	{
+		d := n.pool.VerifDump()
+		for _, h := range d.Pool {
+			hh := h
+			tn := nc.txName(&hh)
+			for bn, btxs := range nc.blockTxs {
+				for _, ti := range btxs {
+					if ti.name == tn && n.chain.InMainChain(nc.nm.blocks[bn].Hash()) {
+						c.Fail("C37:atomicity:pooled-and-confirmed", fmt.Sprintf("after the concurrent run (node idle): %s is in the pool and in main-chain block %s (C23 under concurrency)", tn, bn))
+					}
+				}
+			}
+		}
 	}
 	// deliver everything once more sequentially and check the final state's consistency
 	for _, name := range blocks {
